@@ -4,6 +4,8 @@ import (
 	"fmt"
 	"sort"
 	"strings"
+	"sync"
+	"time"
 
 	"github.com/johannesboyne/gofakes3"
 
@@ -34,7 +36,11 @@ type vHist struct {
 	// specification still is (the failing input may only show a few operations later)
 	modelOff bool
 	firstObs map[string]string // version counter -> first observation by id
+	noSpec   bool              // the next judgement is against the model only (multipart bookkeeping)
+	pending  []pendUpload
 }
+
+type pendUpload struct{ key, id string }
 
 func newVHist(c *Ctx, prop string, opts ...gofakes3.Option) (*vHist, *impl.Instance) {
 	inst, err := impl.New("mem", c.Tmp, opts...)
@@ -59,7 +65,7 @@ func vSpecProj(s string) string {
 	switch f[0] {
 	case "obj", "hobj":
 		return f[0] + " " + f[1]
-	case "stored", "deleted", "multideleted", "copied":
+	case "stored", "deleted", "multideleted", "copied", "completed":
 		return "ok"
 	case "delete-marker":
 		return "delete-marker"
@@ -84,7 +90,7 @@ func (h *vHist) judge(line, obs, finger, key string) {
 	h.r.Lines = append(h.r.Lines, line)
 	io, mo := normObs(obs, model)
 	is, so := normObs(obs, spec)
-	if spec != "-" && !strings.HasPrefix(spec, "specversions") && vSpecProj(is) != vSpecProj(so) {
+	if spec != "-" && !h.noSpec && !strings.HasPrefix(spec, "specversions") && vSpecProj(is) != vSpecProj(so) {
 		// the known finding D5 is the behaviour the model reproduces: only an answer that agrees
 		// with the model is attributed to it
 		if key != "" && h.d5Keys[key] && io == mo {
@@ -176,6 +182,46 @@ func (h *vHist) copy(src, dst string, n int) {
 		if e.Vid != "-" && !known[e.Vid] {
 			h.vers = append(h.vers, verRef{key: e.Key, counter: e.Vid, raw: e.RawVid, marker: e.Marker, bornEnabled: true})
 			h.bornAny[e.Key] = true
+		}
+	}
+}
+
+// mpInit: a multipart upload is initiated (its Last-Modified header is fixed now); mpComplete
+// uploads one part to the oldest pending upload and completes it: a version created through the
+// third write path, possibly long after it was initiated
+func (h *vHist) mpInit(key string) {
+	if h.dead {
+		return
+	}
+	l, o, id := h.r.MpInit(h.bucket, key, nil)
+	h.noSpec = true
+	h.judge(l, o, "mpinit", "")
+	h.noSpec = false
+	if id != "" {
+		h.pending = append(h.pending, pendUpload{key, id})
+	}
+}
+
+func (h *vHist) mpComplete(n int) {
+	if h.dead || len(h.pending) == 0 {
+		return
+	}
+	p := h.pending[0]
+	h.pending = h.pending[1:]
+	body := []byte(fmt.Sprintf("assembled-%d", n))
+	l, o := h.r.MpPart(h.bucket, p.key, p.id, "1", body, "", nil)
+	h.noSpec = true
+	h.judge(l, o, "mppart", "")
+	h.noSpec = false
+	h.noteWrite(p.key)
+	l, o = h.r.MpComplete(h.bucket, p.key, p.id, []cpart{{1, etagOf(body)}})
+	h.fresh(o, "complete")
+	h.judge(l, o, "mpcomplete", p.key)
+	if strings.HasPrefix(o, "completed ") && strings.Contains(o, "vid=") {
+		v := strings.Fields(o[strings.Index(o, "vid=")+4:])[0]
+		if v != "-" {
+			h.vers = append(h.vers, verRef{key: p.key, counter: v, raw: h.rawOf(v), bornEnabled: true})
+			h.bornAny[p.key] = true
 		}
 	}
 }
@@ -341,6 +387,10 @@ func (h *vHist) apply(op string, n int) {
 		h.copy(k, k2, n)
 	case "copyKself":
 		h.copy(k, k, n)
+	case "mpInitK":
+		h.mpInit(k)
+	case "mpCompleteK":
+		h.mpComplete(n)
 	}
 }
 
@@ -404,7 +454,7 @@ func runC05(c *Ctx) {
 				op = "putK"
 			}
 			if c.Rng.Intn(6) == 0 {
-				op = []string{"putKmeta", "putKmeta", "copyK", "copyK", "copyKself"}[c.Rng.Intn(5)]
+				op = []string{"putKmeta", "putKmeta", "copyK", "copyK", "copyKself", "mpInitK", "mpCompleteK", "mpCompleteK"}[c.Rng.Intn(8)]
 			}
 			h.apply(op, j)
 			ops = append(ops, op)
@@ -416,6 +466,28 @@ func runC05(c *Ctx) {
 		inst.Close()
 		c.nontrivial(strings.Join(ops, ","))
 	}
+	// versions created by completing a multipart upload that was initiated before other versions
+	// of the key were stored, under a front-end clock that advances one second per reading
+	impl.FrontTimeSource = &stepTS{at: impl.FixedTime}
+	for _, ops := range [][]string{
+		{"E", "mpInitK", "putK", "mpCompleteK", "putK", "delvNewest", "read", "delvNewest", "read", "delvNewest", "read"},
+		{"E", "putK", "mpInitK", "putK", "putK", "mpCompleteK", "delvNewest", "read", "delK", "delvMarker", "read"},
+		{"mpInitK", "putK", "E", "mpInitK", "putK", "mpCompleteK", "mpCompleteK", "delvNewest", "read", "delvNewest", "read"},
+		{"E", "mpInitK", "putK", "S", "E", "mpCompleteK", "putK", "delvNewest", "read", "delvOldest", "read"},
+	} {
+		h, inst := newVHist(c, "c05")
+		if h == nil {
+			continue
+		}
+		for i, op := range ops {
+			h.apply(op, i)
+		}
+		h.readBack([]string{"k", "k/2"})
+		inst.Close()
+		c.nontrivial(strings.Join(ops, ","))
+		c.hist("multipart-version-histories")
+	}
+	impl.FrontTimeSource = nil
 	// versioning switched off: every versioned request → NotImplemented
 	h, inst := newVHist(c, "c05", gofakes3.WithoutVersioning())
 	if h != nil {
@@ -681,3 +753,17 @@ func runC13(c *Ctx) {
 		}
 	}
 }
+
+// stepTS: a clock that advances one second every time it is read
+type stepTS struct {
+	mu sync.Mutex
+	at time.Time
+}
+
+func (t *stepTS) Now() time.Time {
+	t.mu.Lock()
+	defer t.mu.Unlock()
+	t.at = t.at.Add(time.Second)
+	return t.at
+}
+func (t *stepTS) Since(x time.Time) time.Duration { return t.Now().Sub(x) }
